@@ -296,8 +296,9 @@ impl Sixel {
 
     /// Coordinates are points
     pub fn get_screen_rect(&self, font_dims: Size) -> Rectangle {
-        let x = self.position.x * font_dims.width;
-        let y = self.position.y * font_dims.height;
+        // a loaded document does not clamp the cursor, so an image can sit on a row near i32::MAX
+        let x = self.position.x.saturating_mul(font_dims.width);
+        let y = self.position.y.saturating_mul(font_dims.height);
         Rectangle {
             start: Position::new(x, y),
             size: self.size,
